@@ -43,7 +43,7 @@ func genBBTests(t *rapid.T, min int) (string, []bbTest) {
 	if n > 3 {
 		n = 3
 	}
-	perm := rapid.Permutation(indices(len(pool))).Draw(t, "tests")
+	perm := rapid.Permutation(vhIndices(len(pool))).Draw(t, "tests")
 	var out []bbTest
 	for _, i := range perm[:n] {
 		out = append(out, bbTest{File: pool[i].file, Test: pool[i].test, Steps: genC11StepsAt(t, 1, false)})
@@ -119,7 +119,7 @@ func checkBBOrder(c bbOrderCase) error {
 		return fmt.Errorf("all tests: %v", err)
 	}
 	if err := callErrors(res); err != nil {
-		return fmt.Errorf("all tests: %v (output %s)", err, clip(out))
+		return fmt.Errorf("all tests: %v (output %s)", err, vhClip(out))
 	}
 	all, _ := itemsOf(observedFiles(), only)
 	cleanShard()
@@ -128,7 +128,7 @@ func checkBBOrder(c bbOrderCase) error {
 		return fmt.Errorf("-run %s: %v", only, err)
 	}
 	if err := callErrors(res); err != nil {
-		return fmt.Errorf("-run %s: %v (output %s)", only, err, clip(out))
+		return fmt.Errorf("-run %s: %v (output %s)", only, err, vhClip(out))
 	}
 	alone, _ := itemsOf(observedFiles(), only)
 	cleanShard()
@@ -245,7 +245,7 @@ func checkBBReplay(c bbReplayCase) error {
 		return fmt.Errorf("recording run: %v", err)
 	}
 	if err := callErrors(res); err != nil {
-		return fmt.Errorf("recording run: %v (output %s)", err, clip(out))
+		return fmt.Errorf("recording run: %v (output %s)", err, vhClip(out))
 	}
 	before := observedFiles()
 	res, out, err = runProgram(RunOpts{Pkg: c.Pkg, Trim: c.ReplayTrim, CI: c.ReplayCI, Count: c.Count}, scn)
@@ -337,7 +337,7 @@ func checkBBStandalone(c bbStandaloneCase) error {
 		return fmt.Errorf("recording run: %v", err)
 	}
 	if err := callErrors(res); err != nil {
-		return fmt.Errorf("recording run: %v (output %s)", err, clip(out))
+		return fmt.Errorf("recording run: %v (output %s)", err, vhClip(out))
 	}
 	got := observedFiles()
 	if len(got) != len(want) {
@@ -365,7 +365,7 @@ func checkBBStandalone(c bbStandaloneCase) error {
 			return fmt.Errorf("standalone call %d of %s must live in %q; files created: %v", k+1, c.Test, relAll([]string{p})[0], relAll(gl))
 		}
 		if data != v {
-			return fmt.Errorf("file %d (%q) holds %q, the value of call %d is %q", k+1, relAll([]string{p})[0], clip(data), k+1, clip(v))
+			return fmt.Errorf("file %d (%q) holds %q, the value of call %d is %q", k+1, relAll([]string{p})[0], vhClip(data), k+1, vhClip(v))
 		}
 	}
 	// read-only replay on CI
